@@ -94,15 +94,16 @@ def make_class(case):
     ns = {"__module__": "vf.generated"}
     ann = {}
     select = case["select"]
-    for a, t in attrs:
-        if select in ("annotations", "skip"):
+    mixed = select in MIXED
+    for i, (a, t) in enumerate(attrs):
+        if select in ("annotations", "skip") or (mixed and i > 0):
             ann[a] = TYPES[t]
         if case["defaults"]:
             ns[a] = DEFAULTS[t].copy() if hasattr(DEFAULTS[t], "copy") else DEFAULTS[t]
     if case["private"]:
         ann["_hidden"] = int
         ns["_hidden"] = 3
-    if select == "skip":
+    if select == "skip" or select.endswith("+skip1"):
         ann["skipped"] = int
         ns["skipped"] = 0
     sentinel = {}
@@ -154,7 +155,34 @@ def make_class(case):
         opts["attrs_typed"] = {a: TYPES[t] for a, t in attrs}
     elif select == "skip":
         opts["attrs_skip"] = ["skipped"]
+    elif mixed:
+        # documented: attrs / attrs_typed alone REPLACE the annotated attributes; together with a (potentially empty)
+        # attrs_skip iterable they are incremental on top of them
+        a0, t0 = attrs[0]
+        if select.startswith("attrs_typed"):
+            opts["attrs_typed"] = {a0: TYPES[t0]}
+        else:
+            opts["attrs"] = [a0]
+        if select.endswith("+skip0"):
+            opts["attrs_skip"] = [(), [], set(), frozenset()][len(attrs) % 4]
+        elif select.endswith("+skip1"):
+            opts["attrs_skip"] = ["skipped"]
     return cls, pre, opts
+
+
+MIXED = ("attrs+skip0", "attrs+skip1", "attrs_typed+skip0", "attrs_typed+skip1", "attrs_only_first", "attrs_typed_only_first")
+
+
+def effective(case):
+    """The managed attributes with the type family their helpers are generated for."""
+    attrs = [tuple(a) for a in case["attrs"]]
+    select = case["select"]
+    if select == "attrs":  # with `attrs=` every attribute is typed Any (no collection helpers)
+        return [(a, "int") for a, t in attrs]
+    if select in MIXED:
+        first = (attrs[0][0], attrs[0][1] if select.startswith("attrs_typed") else "int")
+        return [first] + ([] if select.endswith("_only_first") else attrs[1:])
+    return attrs
 
 
 IGNORED = {"__dict__", "__weakref__", "__doc__", "__annotations__", "__module__"}
@@ -165,9 +193,16 @@ def run_case(ctx, case):
 
     attrs = [tuple(a) for a in case["attrs"]]
     select = case["select"]
-    # with `attrs=` every attribute is typed Any (no collection helpers)
-    eff = [(a, "int" if select == "attrs" else t) for a, t in attrs]
+    eff = effective(case)
     names, err = expected_names(eff)
+    if select in MIXED and len(eff) > 1:
+        # the order in which explicit and annotated attributes claim singular names is not documented: where the
+        # two orders disagree (colliding singular forms) the oracle abstains
+        alt = expected_names(eff[1:] + eff[:1])
+        if (alt[1], set(alt[0] or {}), {k: v[0] for k, v in (alt[0] or {}).items()}) != (err, set(names or {}), {k: v[0] for k, v in (names or {}).items()}):
+            ctx.count("mixed_selection_order_dependent_naming:abstained")
+            ctx.case(case, False)
+            return
     cls, pre, opts = make_class(case)
     occupied = dict(case["occupied"])
     try:
@@ -253,8 +288,56 @@ def run_case(ctx, case):
             if changed != [a]:
                 ctx.fail("helper_targets_other_attribute", case, f"{n} belongs to {a!r} but changed {changed}")
                 return
+    # (5) a subclass that overrides a helper and reaches the generated one through super() keeps its override
+    if case.get("sub"):
+        kind, sub_names = case["sub"]
+        sub_names = [n for n in sub_names if n in names and n not in pre]
+        ns = {"__module__": "vf.generated"}
+        holder = {}
+
+        def make_user(n):
+            def user(self, *a, **k):
+                getattr(super(holder["Sub"], self), n)  # what `super().<helper>(...)` does first: look the generated method up
+                return "user"
+            user.__name__ = n
+            return user
+
+        users = {n: make_user(n) for n in sub_names}
+        ns.update(users)
+        # a fresh copy of the decorated class whose helpers have never been looked up (the generated methods are
+        # materialised on first access, and that first access is the one that must not touch the subclass)
+        cls2, _, opts2 = make_class(case)
+        base2 = spec_class(**opts2)(cls2)
+        Sub = type("Sub", (base2,), ns)
+        holder["Sub"] = Sub
+        if kind == "spec":
+            try:
+                Sub = spec_class(bootstrap=case["eager"])(Sub)
+            except RuntimeError:
+                Sub = None
+        if Sub is not None and sub_names:
+            try:
+                sinst = Sub() if "__init__" not in case["switches_off"] or "__init__" in case["user_dunders"] else Sub.__new__(Sub)
+            except (TypeError, AttributeError, ValueError, RecursionError):
+                # (RecursionError: the generated user __init__ of this harness delegates to self.__spec_class_init__, which
+                # a spec subclass re-binds - an artefact of the harness, not of the library)
+                sinst = Sub.__new__(Sub)
+            for n in sub_names:
+                got = []
+                for _ in range(2):
+                    try:
+                        got.append(getattr(sinst, n)())
+                    except Exception as ex:
+                        got.append(repr(ex))
+                getattr(super(Sub, Sub), n, None)  # class-level lookup past the subclass
+                got.append(getattr(sinst, n)() if callable(getattr(sinst, n, None)) else "not callable")
+                if got != ["user"] * 3 or vars(Sub).get(n) is not users[n]:
+                    ctx.fail(f"replaced|subclass_override:{kind}|{_role(names, n)}", case,
+                             f"{kind} subclass overriding {n} and looking the generated helper up through super(): calls returned {got}; vars(Sub)[{n!r}] is {vars(Sub).get(n)!r}")
+                    return
+            ctx.count(f"sub_override:{kind}")
     ctx.count(f"select:{select}")
-    ctx.case(case, bool(case["occupied"]) or _has_collision(attrs))
+    ctx.case(case, bool(case["occupied"]) or _has_collision(eff) or bool(case.get("sub")))
 
 
 def _unwrap(o):
@@ -280,7 +363,7 @@ def base_case(attrs, **kw):
 
 def enum_cases():
     for attrs in ATTR_SETS:
-        for select, eager, private in itertools.product(["annotations", "attrs", "attrs_typed", "skip"], [True, False], [False, True]):
+        for select, eager, private in itertools.product(["annotations", "attrs", "attrs_typed", "skip"] + list(MIXED), [True, False], [False, True]):
             yield base_case(attrs, select=select, eager=eager, private=private)
         for sw in (["init"], ["repr"], ["eq"], ["init", "repr", "eq"]):
             yield base_case(attrs, switches_off=sw, eager=False)
@@ -294,23 +377,28 @@ def enum_cases():
             for kind in ("function", "staticmethod", "property", "value", "none", "false", "zero"):
                 for eager in (True, False):
                     yield base_case(attrs, occupied=[[n, kind]], eager=eager)
+            for kind in ("plain", "spec"):
+                for eager in (True, False):
+                    yield base_case(attrs, sub=[kind, [n]], eager=eager)
 
 
 @st.composite
 def case_strategy(draw):
     src = grammar.HypSource(draw)
     attrs = src.pick(ATTR_SETS)
-    c = base_case(attrs, select=src.pick(["annotations", "annotations", "attrs", "attrs_typed", "skip"]), eager=src.chance(1, 2), private=src.chance(1, 3),
+    c = base_case(attrs, select=src.pick(["annotations", "annotations", "attrs", "attrs_typed", "skip"] + list(MIXED)), eager=src.chance(1, 2), private=src.chance(1, 3),
                   defaults=src.chance(3, 4))
     c["switches_off"] = [s for s in ("init", "repr", "eq") if src.chance(1, 6)]
     c["user_dunders"] = [d for d in ("__init__", "__repr__", "__eq__", "__new__") if src.chance(1, 5)]
-    names, err = expected_names([(a, "int" if c["select"] == "attrs" else t) for a, t in attrs])
+    names, err = expected_names(effective(c))
     if names and err is not True:
         pool = sorted(names)
         for _ in range(src.choice(3)):
             n = src.pick(pool)
             if n not in [o[0] for o in c["occupied"]]:
                 c["occupied"].append([n, src.pick(["function", "staticmethod", "property", "value", "none", "false", "zero"])])
+        if src.chance(1, 3):
+            c["sub"] = [src.pick(["plain", "spec"]), [src.pick(pool) for _ in range(1 + src.choice(2))]]
     return c
 
 
